@@ -38,3 +38,9 @@ pub open spec fn RedeemerTagKind_enc(x: RedeemerTagKind) -> Seq<Tok> {
 pub open spec fn Redeemer_enc(x: Redeemer) -> Seq<Tok> { seq![Tok::Arr(4)] + x.tag.enc() + x.index.enc() + x.data.enc() + x.ex_units.enc() }
 // nonce = [ 0 // 1, bytes .size 32 ]
 pub open spec fn Nonce_enc(x: Nonce) -> Seq<Tok> { match x.hash { Some(h) => seq![Tok::Arr(2), Tok::UInt(1), Tok::Bytes(h@)], None => seq![Tok::Arr(1), Tok::UInt(0)] } }
+// stake_deregistration = (1, stake_credential) ; unreg_cert = (8, stake_credential, coin)
+pub open spec fn StakeDeregistration_enc(x: StakeDeregistration) -> Seq<Tok> {
+    match x.coin { Some(c) => seq![Tok::Arr(3), Tok::UInt(8)] + x.stake_credential.enc() + c.enc(), None => seq![Tok::Arr(2), Tok::UInt(1)] + x.stake_credential.enc() }
+}
+// pool_registration = (3, pool_params)   with pool_params the nine fields inline: an array of 10
+pub open spec fn PoolRegistration_enc(x: PoolRegistration) -> Seq<Tok> { seq![Tok::Arr(10), Tok::UInt(3)] + PoolParams_enc(x.pool_params).skip(1) }
